@@ -33,7 +33,7 @@ end
 """
 import re
 
-DIRECTIVES = ('serves', 'mode', 'ret', 'requires', 'ensures', 'loop', 'entry', 'at', 'after', 'outline', 'extra',
+DIRECTIVES = ('closure', 'serves', 'mode', 'ret', 'requires', 'ensures', 'loop', 'entry', 'at', 'after', 'outline', 'extra',
               'attr', 'recommends', 'decreases', 'sig', 'nounwind', 'specimpl', 'replace_sig')
 
 
@@ -65,6 +65,7 @@ class Contract:
         self.ensures = []        # Clause
         self.recommends = []
         self.decreases = None
+        self.closures = {}       # k -> dict(params=str, ret=str, requires=[Clause], ensures=[Clause])
         self.loops = {}          # k -> dict(iter=str, ghost=[], invariant=[Clause], ensures=[Clause], decreases=str, body_entry=[], body_exit=[], after=[])
         self.entry = []
         self.at = []             # (text, n, stmts, where 'before'|'after')
@@ -187,6 +188,23 @@ def parse_sidecar(path):
                 L[what].append(txt)
             else:
                 raise SyntaxError('%s:%d: unknown loop directive %r' % (path, i + 1, what))
+        elif d == 'closure':
+            mm = re.match(r'(\d+)\s+(\w+)\s*(.*)$', rest)
+            if not mm:
+                raise SyntaxError('%s:%d: bad closure directive' % (path, i + 1))
+            k, what, arg = int(mm.group(1)), mm.group(2), mm.group(3).strip()
+            K = cur.closures.setdefault(k, dict(params=None, ret=None, requires=[], ensures=[], adaptor=None))
+            if what == 'adaptor':
+                K['adaptor'] = arg
+                i += 1
+                continue
+            txt, i = block(i + 1)
+            if what in ('params', 'ret'):
+                K[what] = txt.strip()
+            elif what in ('requires', 'ensures'):
+                K[what].append(Clause('closure_' + what, arg or ('%s%d' % (what[:3], len(K[what]) + 1)), txt, k, here, path))
+            else:
+                raise SyntaxError('%s:%d: unknown closure directive %r' % (path, i + 1, what))
         elif d == 'outline':
             o = Outline(rest)
             txt, i = block(i + 1)
